@@ -71,6 +71,7 @@ C18PercJob ==
   /\ Report("C18_ZeroOnlyForNone", {m \in R : ~C18_Zero(row(m), m)})
   /\ Report("C18_EightOnlyForAll", {m \in R : ~C18_Eight(row(m), m)})
   /\ Report("C18_ArrayAgrees", {m \in R : row(m) # ar(m)})
+  /\ Report("C18_RepeatAgrees", {m \in R : row(m) # Job.arr2[m - LO + 1]})      \* same array object passed again, then one of its elements
   /\ Report("I_HalfEven", {m \in R : ~C18_HalfEven(row(m), m)})
 
 (* heights: hs[j] = [h (feet), len, val] ; nb[j] = [k (feet), side (-1|1), len, val] *)
